@@ -30,12 +30,25 @@ EXPLANATION = (
     "the extra-lease offset read before _change_container_size moved it; DataTooLargeError is raised (in _write_share_data, "
     "_change_container_size, writev, _evaluate_write_vectors) only on an edge where a positive sum of request quantities "
     "exceeds or reaches MAX_SIZE; an os.rmdir inside the apply loop of _evaluate_write_vectors is guarded by listdir of the "
-    "same directory being empty (or sits in a try with a handler), so that clean-up cannot abort the remaining vectors.  "
+    "same directory being empty (or sits in a try with a handler), so that clean-up cannot abort the remaining vectors; "
+    "(9) every server-side protocol entry point hands StorageServer the request's own vectors: FoolscapStorageServer.remote_slot_* "
+    "pass their arguments through and return the server's answer; HTTPServer.mutable_read_test_write rebuilds, per share number and "
+    "element by element, (offset, size, b'eq', specimen), (offset, data), new-length and the read vector from the decoded body's own "
+    "fields (nothing filtered, clipped, reordered or recomputed - e.g. a read length clipped to the specimen length turns 'the share "
+    "must be empty' into a test every share passes) and answers the server's verdict and reads; read_mutable_chunk's reader asks for "
+    "exactly [(offset, length)] of the one requested share and returns that read; (10) the client half: both IStorageServer adapters "
+    "and http_client send the caller's vectors the same way (value objects whose attrs fields are the wire keys, "
+    "TestWriteVectors.asdict renaming to test / write / new-length, every share's asdict() and every read vector in the body).  "
+    "Rules 9/10 compare provenance terms (comprehensions and fill-in-a-loop give the same term); a helper call the evaluator does not "
+    "follow is reported as ANALYSIS-ERROR, not as a pass.  "
     "Undecided: byte-level results of seek/read/write, integer arithmetic, crash windows between the writes; the exact "
     "MAX_SIZE boundary (> vs >=) and the presence of the size limit at all (not part of the byte-array behaviour; the "
     "pre-validation is C24.8); whether the bucket directory is removed after the last share is deleted and which shares "
-    "are reported as remaining for lease renewal; flushes; open() modes.")
-TECHNIQUE = "static analysis: CFG path rules over linear normal forms, seek/write site table, call reachability"
+    "are reported as remaining for lease renewal; flushes; open() modes; the CBOR / Foolscap (de)serialisation itself, the Range "
+    "header arithmetic of read_range / http_client.read_share (shared with immutable shares), _HTTPStorageServer.slot_readv's "
+    "fan-out of chunk reads and the decoding of answers on the client side.")
+TECHNIQUE = ("static analysis: CFG path rules over linear normal forms, seek/write site table, call reachability, "
+             "provenance terms of the vectors handed across protocol hops")
 
 MSF = "storage.mutable:MutableShareFile"
 SRV = "storage.server:StorageServer"
@@ -1057,6 +1070,655 @@ def run(ctx: Context):
                     r.violation(fn, fn.loc(n.ast), "%s refuses a write as too large without having found its end above "
                                 "MAX_SIZE: writes of legal size fail (path: %s)" % (short(fn), w.brief()), w)
             r.count(len(cfg.nodes))
+
+    # -- 9. the protocol front ends ----------------------------------------------------
+    with ctx.rule("C23.9", "R5", "every server-side protocol entry point (Foolscap remote_*, HTTP handlers) hands StorageServer."
+                  "slot_testv_and_readv_and_writev / slot_readv the request's own vectors - per share number, element by "
+                  "element, every (offset, length, b'eq', specimen), (offset, data), new_length and (offset, length) from the "
+                  "request's own fields, nothing dropped, clipped or recomputed - and answers what the server returned",
+                  expected=4) as r:
+        _front_ends(r, idx, cg)
+
+    # -- 10. the client half of the same hops ---------------------------------------------
+    with ctx.rule("C23.10", "R5", "the IStorageServer adapters (Foolscap, HTTP) and the HTTP client send, per share number and "
+                  "element by element, the caller's own (offset, length, specimen), (offset, data), new_length and read vector "
+                  "in the places the server reads them from: attrs fields named like the wire keys, TestWriteVectors.asdict "
+                  "renaming to test / write / new-length, every share's asdict() in the body", expected=7) as r:
+        _client_half(r, idx)
+
+
+# ------------------------------------------------ protocol front ends (C23.9)
+# The byte-array behaviour is what a client sees through a protocol: Foolscap delivers the caller's tuples to
+# FoolscapStorageServer.remote_*, the HTTP handlers rebuild them from the decoded CBOR body.  Whatever a front end
+# hands to StorageServer is what the share is tested against, written with and read at; a front end that shortens a
+# read length, drops an (empty) write, maps new_length 0 to None or reorders a vector makes the share behave unlike
+# the array the client operates on although mutable.py is intact.  _Prov evaluates the argument expressions to
+# provenance terms (which field of which request element lands where; comprehensions and accumulate-in-a-loop are the
+# same term), and the rule compares terms - never statements - with the term of the reference expression below.
+_RTW = "slot_testv_and_readv_and_writev"
+_READV = "slot_readv"
+# the HTTP wire keys are those of the storage protocol specification (and of the CDDL schema the body is validated against)
+_HTTP_TW = ('{k: ([(d["offset"], d["size"], b"eq", d["specimen"]) for d in v["test"]], '
+            '[(d["offset"], d["data"]) for d in v["write"]], v["new-length"]) '
+            'for (k, v) in REQ["test-write-vectors"].items()}')
+_HTTP_RV = '[(d["offset"], d["size"]) for d in REQ["read-vector"]]'
+_HTTP_ANSWER = '{"success": RES[0], "data": RES[1]}'
+_TW_NAMES = {
+    (): "the test-and-write vectors", ("over",): "the set of shares the vectors are taken from", ("key",): "the share number a "
+    "share's vectors are filed under", ("value",): "a share's (test vector, write vector, new_length) triple",
+    ("value", 0): "a share's test vector", ("value", 0, "each"): "a test vector element",
+    ("value", 0, "each", 0): "the offset of a test vector element", ("value", 0, "each", 1): "the read length of a test vector element",
+    ("value", 0, "each", 2): "the operator of a test vector element", ("value", 0, "each", 3): "the specimen of a test vector element",
+    ("value", 1): "a share's write vector", ("value", 1, "each"): "a write vector element",
+    ("value", 1, "each", 0): "the offset of a write vector element", ("value", 1, "each", 1): "the data of a write vector element",
+    ("value", 2): "a share's new_length"}
+_RV_NAMES = {(): "the read vector", ("each",): "a read vector element", ("each", 0): "the offset of a read vector element",
+             ("each", 1): "the length of a read vector element"}
+_BUILTINS = {"min", "max", "len", "int", "abs", "sorted", "reversed", "sum", "bytes", "bytearray", "str", "bool", "set",
+             "frozenset", "enumerate", "zip", "range", "filter", "map", "any", "all", "slice", "divmod", "round"}
+_MUTATORS = {"append", "extend", "insert", "pop", "remove", "clear", "update", "setdefault", "popitem", "sort", "reverse",
+             "add", "discard", "__setitem__", "__delitem__"}
+
+
+class _Prov:
+    """Provenance terms of the expressions of one function:
+    ('in', p) parameter (own or of an enclosing function) | ('const', repr) | ('seq', terms) tuple or list display |
+    ('dict', pairs) | ('item', base, index) | ('attr', base, name) | ('elem', C) an element (a key, for a dict) of C |
+    ('val', D) the value under that key | ('map', C, t) one t per element of C, in order | ('dmap', C, k, v) |
+    ('filtered', t) a map that may skip elements | ('body',) the decoded request body | ('thecall',) the result of the
+    call under examination | ('call', name, args, kwargs) | ('expr', dump) any other computed value |
+    ('free', name) | ('unsupported', why) a construct this evaluator does not model (-> ANALYSIS-ERROR, not a verdict)."""
+
+    def __init__(self, fn=None, the_call=None, idx=None):
+        self.fn, self.the_call, self.idx = fn, the_call, idx
+        self.defs = all_defs(fn) if fn is not None else {}
+        self.own = list(fn.params) if fn is not None else []
+        self.outer = set()
+        g = fn.parent if fn is not None else None
+        while g is not None:
+            gd = all_defs(g)
+            self.outer |= {p for p in g.params if p not in gd}
+            g = g.parent
+        self.parent = {}
+        self.nodes = {}
+        if fn is not None:
+            for st in fn.body:
+                self.parent[id(st)] = fn.node
+            for n in func_own_nodes(fn):
+                for c in ast.iter_child_nodes(n):
+                    self.parent[id(c)] = n
+        self._busy = set()
+
+    # ---- terms
+    @staticmethod
+    def item(base, i):
+        if base[0] == "seq" and i[0] == "const":
+            try:
+                k = ast.literal_eval(i[1])
+                if isinstance(k, int) and not isinstance(k, bool) and 0 <= k < len(base[1]):
+                    return base[1][k]
+            except (ValueError, SyntaxError):
+                pass
+        if i == ("elem", base):
+            return ("val", base)
+        return ("item", base, i)
+
+    @staticmethod
+    def iterate(src):
+        """(collection, term of one element) of a for / comprehension over src."""
+        if src[0] == "items":
+            return src[1], ("seq", (("elem", src[1]), ("val", src[1])))
+        if src[0] == "keys":
+            return src[1], ("elem", src[1])
+        if src[0] == "values":
+            return src[1], ("val", src[1])
+        if src[0] in ("map", "dmap", "filtered", "seq", "dict"):
+            return src, ("unsupported", "iteration over a collection built in the same function")
+        return src, ("elem", src)
+
+    def bind(self, target, term, env):
+        if isinstance(target, ast.Name):
+            env[target.id] = term
+        elif isinstance(target, (ast.Tuple, ast.List)) and not any(isinstance(e, ast.Starred) for e in target.elts):
+            for i, e in enumerate(target.elts):
+                self.bind(e, self.item(term, ("const", repr(i))), env)
+        else:
+            for x in ast.walk(target):
+                if isinstance(x, ast.Name):
+                    env[x.id] = ("unsupported", "binding form %s" % type(target).__name__)
+
+    # ---- evaluation
+    def ev(self, e, env=None):
+        env = env if env is not None else {}
+        if isinstance(e, ast.Name):
+            return self._name(e.id, env)
+        if isinstance(e, ast.Constant):
+            return ("const", repr(e.value))
+        if isinstance(e, (ast.Tuple, ast.List)):
+            if any(isinstance(x, ast.Starred) for x in e.elts):
+                return ("unsupported", "starred display")
+            return ("seq", tuple(self.ev(x, env) for x in e.elts))
+        if isinstance(e, ast.Dict):
+            if any(k is None for k in e.keys):
+                return ("unsupported", "dict display with **")
+            return ("dict", tuple(sorted(((self.ev(k, env), self.ev(v, env)) for k, v in zip(e.keys, e.values)),
+                                         key=lambda kv: repr(kv[0]))))
+        if isinstance(e, ast.Await):
+            return self.ev(e.value, env)
+        if isinstance(e, ast.Attribute):
+            return ("attr", self.ev(e.value, env), e.attr)
+        if isinstance(e, ast.Subscript):
+            if isinstance(e.slice, ast.Slice):
+                return self._expr(e)
+            return self.item(self.ev(e.value, env), self.ev(e.slice, env))
+        if isinstance(e, (ast.ListComp, ast.GeneratorExp, ast.DictComp)):
+            if len(e.generators) != 1 or e.generators[0].is_async:
+                return ("unsupported", "comprehension with several generators")
+            g = e.generators[0]
+            coll, el = self.iterate(self.ev(g.iter, env))
+            env2 = dict(env)
+            self.bind(g.target, el, env2)
+            if isinstance(e, ast.DictComp):
+                t = ("dmap", coll, self.ev(e.key, env2), self.ev(e.value, env2))
+            else:
+                t = ("map", coll, self.ev(e.elt, env2))
+            return ("filtered", t) if g.ifs else t
+        if isinstance(e, ast.Call):
+            return self._call(e, env)
+        return self._expr(e)
+
+    def _expr(self, e):
+        d = ast.dump(e)
+        self.nodes[d] = e
+        return ("expr", d)
+
+    def _call(self, e, env):
+        if e is self.the_call:
+            return ("thecall",)
+        tail = call_tail(e)
+        if tail == "read_encoded":
+            return ("body",)
+        plain = not e.keywords and not any(isinstance(a, ast.Starred) for a in e.args)
+        if isinstance(e.func, ast.Attribute) and e.func.attr in ("items", "keys", "values") and plain and not e.args:
+            return (e.func.attr, self.ev(e.func.value, env))
+        if isinstance(e.func, ast.Name) and plain and len(e.args) == 1 and e.func.id not in env and e.func.id not in self.defs:
+            if e.func.id in ("list", "tuple"):
+                return self.ev(e.args[0], env)
+            if e.func.id == "dict":
+                t = self.ev(e.args[0], env)
+                if t[0] == "map" and t[2][0] == "seq" and len(t[2][1]) == 2:
+                    return ("dmap", t[1], t[2][1][0], t[2][1][1])
+                if t[0] == "items":
+                    return t[1]
+                return t if t[0] != "map" else ("unsupported", "dict() of a sequence")
+        if isinstance(e.func, ast.Attribute) and e.func.attr == "asdict" and plain and not e.args:
+            return ("method", "asdict", self.ev(e.func.value, env))
+        if isinstance(e.func, ast.Name) and e.func.id == "asdict" and plain and len(e.args) == 1 and "asdict" not in env \
+                and "asdict" not in self.defs:
+            return ("call", "asdict", (self.ev(e.args[0], env),), ())
+        fields = self._fields_of(e.func) if self.idx is not None and isinstance(e.func, ast.Name) and e.func.id not in env \
+            and e.func.id not in self.defs else None
+        if fields is not None and not any(isinstance(a, ast.Starred) for a in e.args) and all(k.arg for k in e.keywords) \
+                and len(e.args) <= len(fields):
+            # an attrs value object: which term lands in which field
+            given = [(fields[i], self.ev(a, env)) for i, a in enumerate(e.args)] + [(k.arg, self.ev(k.value, env)) for k in e.keywords]
+            return ("obj", e.func.id, tuple(sorted(given, key=lambda kv: kv[0])))
+        if isinstance(e.func, ast.Attribute) and e.func.attr == "get" and plain and len(e.args) == 1:
+            return self.item(self.ev(e.func.value, env), self.ev(e.args[0], env))       # the body is schema-checked: keys exist
+        if isinstance(e.func, ast.Name) and e.func.id in _BUILTINS and e.func.id not in env and e.func.id not in self.defs \
+                and not any(isinstance(a, ast.Starred) for a in e.args):
+            # a value computed from the request is not the request's value
+            return ("call", e.func.id, tuple(self.ev(a, env) for a in e.args),
+                    tuple(sorted(((k.arg or "**", self.ev(k.value, env)) for k in e.keywords), key=repr)))
+        return ("unsupported", "the call %s(..) is not followed" % (call_name(e) or "<expression>"))
+
+    def _fields_of(self, f):
+        return _attrs_fields(self.idx, f.id)
+
+    def _name(self, name, env):
+        if name in env:
+            return env[name]
+        vals = self.defs.get(name)
+        if vals is None:
+            if name in self.own or name in self.outer:
+                return ("in", name)
+            return ("free", name)
+        if name in self.own:
+            return ("unsupported", "parameter '%s' is re-bound" % name)
+        if len(vals) != 1 or vals[0] is None:
+            return ("unsupported", "'%s' has several (or opaque) bindings" % name)
+        if name in self._busy:
+            return ("unsupported", "'%s' is defined in terms of itself" % name)
+        self._busy.add(name)
+        try:
+            muts = self._mutations(name)
+            if muts:
+                return self._accumulated(name, vals[0], muts, env)
+            return self.ev(vals[0], env)
+        finally:
+            self._busy.discard(name)
+
+    # ---- x = [] / {} filled in a loop
+    def _stmt_of(self, n):
+        while n is not None and not isinstance(n, ast.stmt):
+            n = self.parent.get(id(n))
+        return n
+
+    def _mutations(self, name):
+        out = []
+        for n in func_own_nodes(self.fn):
+            if isinstance(n, ast.Call) and isinstance(n.func, ast.Attribute) and isinstance(n.func.value, ast.Name) \
+                    and n.func.value.id == name and n.func.attr in _MUTATORS:
+                if n.func.attr == "append" and len(n.args) == 1 and not n.keywords and isinstance(self.parent.get(id(n)), ast.Expr):
+                    out.append(("append", self._stmt_of(n), None, n.args[0]))
+                else:
+                    out.append(("other", self._stmt_of(n), None, None))
+            elif isinstance(n, ast.Subscript) and isinstance(n.value, ast.Name) and n.value.id == name \
+                    and isinstance(n.ctx, (ast.Store, ast.Del)):
+                st = self.parent.get(id(n))
+                if isinstance(n.ctx, ast.Store) and isinstance(st, ast.Assign) and len(st.targets) == 1 and st.targets[0] is n \
+                        and not isinstance(n.slice, ast.Slice):
+                    out.append(("setitem", st, n.slice, st.value))
+                else:
+                    out.append(("other", self._stmt_of(n), None, None))
+        return out
+
+    def _ancestors(self, st):
+        out = []
+        child, p = st, self.parent.get(id(st))
+        while p is not None and p is not self.fn.node:
+            out.append((p, child))
+            child, p = p, self.parent.get(id(p))
+        return out
+
+    def _accumulated(self, name, init, muts, env):
+        empty = (isinstance(init, (ast.List, ast.Tuple)) and not init.elts) or (isinstance(init, ast.Dict) and not init.keys) \
+            or (isinstance(init, ast.Call) and isinstance(init.func, ast.Name) and init.func.id in ("list", "dict")
+                and not init.args and not init.keywords)
+        if not empty or len(muts) != 1 or muts[0][0] == "other":
+            return ("unsupported", "'%s' is modified in place in a way that is not a single append / item store into an "
+                    "initially empty container" % name)
+        kind, st, key, value = muts[0]
+        init_st = None
+        for n in func_own_nodes(self.fn):
+            if isinstance(n, (ast.Assign, ast.AnnAssign)) and n.value is init:
+                init_st = n
+        if init_st is None:
+            return ("unsupported", "cannot find where '%s' is initialised" % name)
+        shared = {id(p) for (p, _c) in self._ancestors(init_st)}
+        loops, filtered = [], False
+        for (p, child) in self._ancestors(st):
+            if id(p) in shared:
+                continue
+            if isinstance(p, ast.For) and any(child is s for s in p.body):
+                loops.append(p)
+                for x in p.body:
+                    for y in own_nodes(x):
+                        if isinstance(y, (ast.Break, ast.Continue, ast.Return)):
+                            filtered = True
+            elif isinstance(p, ast.If):
+                filtered = True
+            else:
+                return ("unsupported", "'%s' is filled inside a %s statement" % (name, type(p).__name__))
+        if len(loops) > 1:
+            return ("unsupported", "'%s' is filled by nested loops" % name)
+        env2 = dict(env)
+        if loops:
+            coll, el = self.iterate(self.ev(loops[0].iter, env))
+            self.bind(loops[0].target, el, env2)
+        v = self.ev(value, env2)
+        if kind == "append":
+            t = ("map", coll, v) if loops else ("seq", (v,))
+        else:
+            k = self.ev(key, env2)
+            t = ("dmap", coll, k, v) if loops else ("dict", ((k, v),))
+        return ("filtered", t) if filtered else t
+
+    # ---- messages
+    def show(self, t):
+        k = t[0]
+        if k in ("in", "free"):
+            return t[1]
+        if k == "const":
+            return t[1]
+        if k == "seq":
+            return "(" + ", ".join(self.show(x) for x in t[1]) + ("," if len(t[1]) == 1 else "") + ")"
+        if k == "dict":
+            return "{" + ", ".join("%s: %s" % (self.show(a), self.show(b)) for a, b in t[1]) + "}"
+        if k == "item":
+            return "%s[%s]" % (self.show(t[1]), self.show(t[2]))
+        if k == "attr":
+            return "%s.%s" % (self.show(t[1]), t[2])
+        if k == "elem":
+            return "<element>"
+        if k == "val":
+            return "<entry>"
+        if k == "map":
+            return "[%s for each element of %s]" % (self.show(t[2]), self.show(t[1]))
+        if k == "dmap":
+            return "{%s: %s for each element of %s}" % (self.show(t[2]), self.show(t[3]), self.show(t[1]))
+        if k == "filtered":
+            return "%s with some elements left out" % self.show(t[1])
+        if k == "body":
+            return "<request body>"
+        if k == "thecall":
+            return "<what the storage server returned>"
+        if k == "obj":
+            return "%s(%s)" % (t[1], ", ".join("%s=%s" % (a, self.show(b)) for a, b in t[2]))
+        if k == "method":
+            return "%s.%s()" % (self.show(t[2]), t[1])
+        if k in ("items", "keys", "values"):
+            return "%s.%s()" % (self.show(t[1]), k)
+        if k == "call":
+            return "%s(%s)" % (t[1], ", ".join([self.show(x) for x in t[2]] + ["%s=%s" % (a, self.show(b)) for a, b in t[3]]))
+        if k == "expr":
+            n = self.nodes.get(t[1])
+            return src(self.fn, n) if n is not None and self.fn is not None else "<computed value>"
+        return "<%s>" % (t[1] if len(t) > 1 else k)
+
+
+def _unsupported(t):
+    if isinstance(t, tuple):
+        if t and t[0] == "unsupported":
+            return t[1]
+        for x in t:
+            u = _unsupported(x)
+            if u:
+                return u
+    return None
+
+
+def _term_diff(got, want, path=()):
+    """First differing positions: [(path, got subterm, want subterm)]; descends while constructor and arity agree."""
+    if got == want:
+        return []
+    if got[0] == want[0] == "seq" and len(got[1]) == len(want[1]):
+        return [d for i in range(len(got[1])) for d in _term_diff(got[1][i], want[1][i], path + (i,))]
+    if got[0] == want[0] == "map":
+        if got[1] != want[1]:
+            return [(path + ("over",), got[1], want[1])]
+        return _term_diff(got[2], want[2], path + ("each",))
+    if got[0] == want[0] == "dmap":
+        if got[1] != want[1]:
+            return [(path + ("over",), got[1], want[1])]
+        return _term_diff(got[2], want[2], path + ("key",)) + _term_diff(got[3], want[3], path + ("value",))
+    if got[0] == want[0] == "obj" and got[1] == want[1] and [k for k, _v in got[2]] == [k for k, _v in want[2]]:
+        return [d for (k, a), (_k, b) in zip(got[2], want[2]) for d in _term_diff(a, b, path + (k,))]
+    if got[0] == want[0] == "dict" and [k for k, _v in got[1]] == [k for k, _v in want[1]]:
+        return [d for (k, a), (_k, b) in zip(got[1], want[1])
+                for d in _term_diff(a, b, path + (k[1].strip("'\"") if k[0] == "const" else "?",))]
+    return [(path, got, want)]
+
+
+def _path_name(names, path):
+    p = tuple(path)
+    while p not in names and p:
+        p = p[:-1]
+    return names.get(p, "the vectors")
+
+
+def _compare(r, pv, fn, node, got, want, names, callee, why, wshow=None):
+    """Report where the term handed on differs from the term of the request's own vectors."""
+    for (path, g, w) in _term_diff(got, want):
+        u = _unsupported(g)
+        if u:
+            raise AnalysisError("%s: cannot follow %s on its way to %s: %s" % (short(fn), _path_name(names, path), callee, u))
+        if g[0] == "filtered" and g[1][0] == w[0]:
+            msg = "%s can leave out elements of %s before handing it to %s" % (short(fn), _path_name(names, path), callee)
+        else:
+            msg = "%s hands %s %s as %s, where the request gives %s" % (short(fn), callee, pv.show(g), _path_name(names, path),
+                                                                       (wshow or pv).show(w))
+        r.violation(fn, fn.loc(node), "%s: %s" % (msg, why))
+
+
+def _front_ends(r, idx, cg):
+    srv_fn = {t: idx.func(SRV + "." + t) for t in (_RTW, _READV)}
+    roles = {_RTW: (2, 3), _READV: (1, 2)}         # (test_and_write_vectors, read_vector) / (shares, readv)
+    kinds = set()
+    why = {
+        "tw": "the share is then tested and written with something other than what the client asked for, so over this "
+              "protocol it does not behave like the byte array the client operates on",
+        "rv": "the bytes read are then not the (clipped) range the client asked for",
+        "res": "the client is then not told what the share held / whether the tests passed"}
+    for tail in (_RTW, _READV):
+        sps = first_positional_params(srv_fn[tail])
+        for cs in sorted(cg.calls_named(tail), key=lambda c: (c.fn.qual, c.call.lineno)):
+            fn = cs.fn
+            mod = fn.module.name
+            if not mod.startswith("allmydata.storage.") or fn.cls is None or fn.cls.qual == idx.cls(SRV).qual:
+                continue
+            call = cs.call
+            pv = _Prov(fn, call)
+            callee = "StorageServer." + tail
+            args = [arg(call, i, sps[i]) if i < len(sps) else None for i in roles[tail]]
+            if any(a is None for a in args):
+                raise AnalysisError("%s: cannot find the vector arguments of the call of %s" % (short(fn), tail))
+            got = [pv.ev(a) for a in args]
+            rets = [n for n in func_own_nodes(fn) if isinstance(n, ast.Return)]
+            r.count(1 + len(rets))
+            if fn.name == "remote_" + tail:
+                # Foolscap: the caller's own objects arrive as positional arguments and go on untouched
+                kinds.add(("foolscap", tail))
+                r.site(fn, call, "Foolscap front end of " + tail)
+                ps = first_positional_params(fn)
+                if len(ps) <= max(roles[tail]):
+                    raise AnchorVanished("%s no longer takes the arguments of %s" % (short(fn), tail))
+                for g, i, nm, key in zip(got, roles[tail], ({_RTW: _TW_NAMES, _READV: {(): "the list of shares to read"}}[tail], _RV_NAMES),
+                                         ({_RTW: "tw", _READV: "rv"}[tail], "rv")):
+                    _compare(r, pv, fn, call, g, ("in", ps[i]), nm, callee, why[key])
+                for rn in rets:
+                    rt = pv.ev(rn.value) if rn.value is not None else ("const", "None")
+                    if _unsupported(rt):
+                        raise AnalysisError("%s: cannot follow the value returned: %s" % (short(fn), _unsupported(rt)))
+                    r.require(rt == ("thecall",), fn, fn.loc(rn), "%s answers %s, not what %s returned: %s" % (
+                        short(fn), pv.show(rt), callee, why["res"]))
+                r.require(bool(rets), fn, fn.loc(), "%s does not answer what %s returned: %s" % (short(fn), callee, why["res"]))
+            elif tail == _RTW:
+                # HTTP: the vectors are rebuilt from the decoded body
+                bodies = [c for c in calls_in_func(fn, "read_encoded")]
+                if len(bodies) != 1:
+                    raise AnalysisError("%s calls %s but does not decode exactly one request body" % (short(fn), tail))
+                kinds.add(("http", tail))
+                r.site(fn, call, "HTTP front end of " + tail)
+                ref = _Prov()
+                env = {"REQ": ("body",), "RES": ("thecall",)}
+                _compare(r, pv, fn, call, got[0], ref.ev(parse_expr(_HTTP_TW), dict(env)), _TW_NAMES, callee, why["tw"], ref)
+                _compare(r, pv, fn, call, got[1], ref.ev(parse_expr(_HTTP_RV), dict(env)), _RV_NAMES, callee, why["rv"], ref)
+                sends = calls_in_func(fn, "_send_encoded")
+                if len(sends) != 1 or len(sends[0].args) < 2:
+                    raise AnalysisError("%s: expected one self._send_encoded(request, answer)" % short(fn))
+                _compare(r, pv, fn, sends[0], pv.ev(sends[0].args[1]), ref.ev(parse_expr(_HTTP_ANSWER), dict(env)),
+                         {(): "the answer", ("success",): "the verdict of the tests", ("data",): "the data read"},
+                         "the client", why["res"], ref)
+            else:
+                # HTTP: one chunk of one share, read through a callable (offset, length) -> bytes
+                kinds.add(("http", tail))
+                r.site(fn, call, "HTTP front end of " + tail)
+                ps = [p for p in first_positional_params(fn)]
+                if fn.parent is None or len(ps) != 2:
+                    raise AnalysisError("%s calls %s but is not an (offset, length) -> bytes reader of a handler" % (short(fn), tail))
+                sh = got[0]
+                if _unsupported(sh):
+                    raise AnalysisError("%s: cannot follow the share list: %s" % (short(fn), _unsupported(sh)))
+                one = sh[0] == "seq" and len(sh[1]) == 1 and sh[1][0][0] == "in" and sh[1][0][1] in pv.outer
+                r.require(one, fn, fn.loc(call), "%s reads the shares %s, not the one share the request names: %s" % (
+                    short(fn), pv.show(sh), why["rv"]))
+                _compare(r, pv, fn, call, got[1], ("seq", (("seq", (("in", ps[0]), ("in", ps[1]))),)),
+                         {(): "the read vector", (0,): "the one (offset, length) pair", (0, 0): "the offset to read at",
+                          (0, 1): "the number of bytes to read"}, callee, why["rv"])
+                if one:
+                    want = ("item", ("item", ("thecall",), sh[1][0]), ("const", "0"))
+                    for rn in rets:
+                        rt = pv.ev(rn.value) if rn.value is not None else ("const", "None")
+                        if _unsupported(rt):
+                            raise AnalysisError("%s: cannot follow the value returned: %s" % (short(fn), _unsupported(rt)))
+                        r.require(rt == want, fn, fn.loc(rn), "%s answers %s, not the single read of the requested share: %s" % (
+                            short(fn), pv.show(rt), why["res"]))
+                    r.require(bool(rets), fn, fn.loc(), "%s does not return the data read" % short(fn))
+    for need in (("foolscap", _RTW), ("http", _RTW), ("foolscap", _READV), ("http", _READV)):
+        if need not in kinds:
+            raise AnchorVanished("no %s front end calling StorageServer.%s found in allmydata.storage" % need)
+
+
+# ------------------------------------------------ the client half (C23.10)
+_HC = "storage.http_client:"
+_SC = "storage_client:"
+# IStorageServer callers give 3-tuples (offset, length, specimen); Foolscap carries 4-tuples with the operator
+_FOOLSCAP_TW = '{k: ([(t[0], t[1], b"eq", t[2]) for t in v[0]], v[1], v[2]) for (k, v) in TW.items()}'
+_HTTP_CLIENT_TW = ('{k: TestWriteVectors(test_vectors=[TestVector(offset=t[0], size=t[1], specimen=t[2]) for t in v[0]], '
+                   'write_vectors=[WriteVector(offset=w[0], data=w[1]) for w in v[1]], new_length=v[2]) for (k, v) in TW.items()}')
+_HTTP_CLIENT_RV = '[ReadVector(offset=x[0], size=x[1]) for x in RV]'
+_HTTP_BODY = '{"test-write-vectors": {k: v.asdict() for (k, v) in TW.items()}, "read-vector": [asdict(x) for x in RV]}'
+_WIRE_FIELDS = {"TestVector": ("offset", "size", "specimen"), "WriteVector": ("offset", "data"), "ReadVector": ("offset", "size"),
+                "TestWriteVectors": ("test_vectors", "write_vectors", "new_length")}
+_WIRE_RENAMES = {"test": "test_vectors", "write": "write_vectors", "new-length": "new_length"}
+_OBJ_TW_NAMES = {
+    (): "the test-and-write vectors", ("over",): "the set of shares the vectors are taken from", ("key",): "the share number a "
+    "share's vectors are filed under", ("value",): "a share's vectors",
+    ("value", "test_vectors"): "a share's test vector", ("value", "test_vectors", "each"): "a test vector element",
+    ("value", "test_vectors", "each", "offset"): "the offset of a test vector element",
+    ("value", "test_vectors", "each", "size"): "the read length of a test vector element",
+    ("value", "test_vectors", "each", "specimen"): "the specimen of a test vector element",
+    ("value", "write_vectors"): "a share's write vector", ("value", "write_vectors", "each"): "a write vector element",
+    ("value", "write_vectors", "each", "offset"): "the offset of a write vector element",
+    ("value", "write_vectors", "each", "data"): "the data of a write vector element",
+    ("value", "new_length"): "a share's new_length"}
+_OBJ_RV_NAMES = {(): "the read vector", ("each",): "a read vector element", ("each", "offset"): "the offset of a read vector element",
+                 ("each", "size"): "the length of a read vector element"}
+_BODY_NAMES = {(): "the request body", ("test-write-vectors",): "the test-and-write vectors in the body",
+               ("test-write-vectors", "value"): "what is sent for a share", ("test-write-vectors", "key"): "the share number a share's "
+               "vectors are sent under", ("read-vector",): "the read vector in the body", ("read-vector", "each"): "what is sent for a read vector element"}
+
+
+def _attrs_fields(idx, name):
+    """Field names, in declaration order, of the one attrs-style value class called `name` in allmydata.storage.http_client."""
+    cands = [c for c in idx.class_by_name.get(name, []) if c.module.name == "allmydata.storage.http_client"]
+    if len(cands) != 1:
+        return None
+    out = []
+    for st in cands[0].node.body:
+        if isinstance(st, ast.AnnAssign) and isinstance(st.target, ast.Name):
+            out.append(st.target.id)
+    return out or None
+
+
+def _client_half(r, idx):
+    why = {"tw": "the share is then tested and written with something other than what the caller asked for, so seen through "
+                 "this adapter it does not behave like a byte array",
+           "rv": "the bytes read are then not the (clipped) range the caller asked for"}
+    srv = idx.func("storage.server:FoolscapStorageServer.remote_" + _RTW)
+    sps = first_positional_params(srv)
+    # -- Foolscap adapter: 3-tuples become 4-tuples with the operator, the rest goes through
+    for tail, pos, wants in ((_RTW, (2, 3), (_FOOLSCAP_TW, None)), (_READV, (1, 2), (None, None))):
+        fn = idx.func(_SC + "_StorageServer." + tail)
+        ps = first_positional_params(fn)
+        sends = [c for c in calls_in_func(fn, "callRemote") if c.args and isinstance(c.args[0], ast.Constant) and c.args[0].value == tail]
+        if len(sends) != 1 or len(ps) <= max(pos):
+            raise AnchorVanished("%s: one callRemote(%r, ..)" % (short(fn), tail))
+        call = sends[0]
+        r.site(fn, call, "Foolscap adapter of " + tail)
+        r.count(1)
+        pv = _Prov(fn, call, idx)
+        ref = _Prov()
+        for i, w, names, key in zip(pos, wants, (_TW_NAMES if tail == _RTW else {(): "the list of shares to read"}, _RV_NAMES),
+                                    ("tw" if tail == _RTW else "rv", "rv")):
+            a = arg(call, 1 + i)
+            if a is None:
+                raise AnalysisError("%s: cannot find argument %d of callRemote(%r, ..)" % (short(fn), 1 + i, tail))
+            want = ref.ev(parse_expr(w), {"TW": ("in", ps[i])}) if w else ("in", ps[i])
+            _compare(r, pv, fn, call, pv.ev(a), want, names, "the remote " + tail, why[key], ref)
+    # -- HTTP adapter: value objects whose fields are the wire keys
+    fn = idx.func(_SC + "_HTTPStorageServer." + _RTW)
+    ps = first_positional_params(fn)
+    sends = calls_in_func(fn, "read_test_write_chunks")
+    if len(sends) != 1 or len(ps) < 4:
+        raise AnchorVanished("%s: one call of read_test_write_chunks" % short(fn))
+    call = sends[0]
+    r.site(fn, call, "HTTP adapter of " + _RTW)
+    hop = idx.func(_HC + "StorageClientMutables.read_test_write_chunks")
+    hps = first_positional_params(hop)
+    if len(hps) < 6:
+        raise AnchorVanished("%s(storage_index, 3 secrets, testwrite_vectors, read_vector)" % short(hop))
+    pv = _Prov(fn, call, idx)
+    ref = _Prov(None, None, idx)
+    for i, w, env, names, key in ((4, _HTTP_CLIENT_TW, {"TW": ("in", ps[2])}, _OBJ_TW_NAMES, "tw"),
+                                  (5, _HTTP_CLIENT_RV, {"RV": ("in", ps[3])}, _OBJ_RV_NAMES, "rv")):
+        a = arg(call, i, hps[i])
+        if a is None:
+            raise AnalysisError("%s: cannot find the %s argument of read_test_write_chunks" % (short(fn), hps[i]))
+        _compare(r, pv, fn, call, pv.ev(a), ref.ev(parse_expr(w), env), names, "the HTTP client", why[key], ref)
+    # -- http_client: pass-through hops down to the function that builds the body
+    r.site(hop, None, "HTTP client hops to the request body")
+    tw_p, rv_p = hps[4], hps[5]
+    for _i in range(4):
+        reqs = [c for c in calls_in_func(hop, "request") if kwarg(c, "message_to_serialize") is not None]
+        if reqs:
+            break
+        nxt = [(c, hop.cls.methods[call_tail(c)]) for c in calls_in_func(hop) if call_name(c) == "self." + call_tail(c)
+               and call_tail(c) in hop.cls.methods and tw_p in {x.id for a in c.args for x in ast.walk(a) if isinstance(x, ast.Name)}]
+        if len(nxt) != 1:
+            raise AnalysisError("%s neither sends a body nor hands the vectors to one method of its class" % short(hop))
+        c, g = nxt[0]
+        gps = first_positional_params(g)
+        pv = _Prov(hop, c, idx)
+        r.count(1)
+        got = {}
+        for j, gp in enumerate(gps):
+            a = arg(c, j, gp)
+            got[gp] = pv.ev(a) if a is not None else None
+        carriers = [gp for gp, t in got.items() if t == ("in", tw_p)], [gp for gp, t in got.items() if t == ("in", rv_p)]
+        for what, t, cands in (("test-and-write vectors", tw_p, carriers[0]), ("read vector", rv_p, carriers[1])):
+            r.require(len(cands) == 1, hop, hop.loc(c), "%s does not hand its %s (%s) on to %s unchanged" % (short(hop), what, t, short(g)))
+        if len(carriers[0]) != 1 or len(carriers[1]) != 1:
+            return
+        hop, tw_p, rv_p = g, carriers[0][0], carriers[1][0]
+    else:
+        raise AnalysisError("the HTTP client's read-test-write passes through more than 4 methods")
+    if len(reqs) != 1:
+        raise AnalysisError("%s sends %d bodies" % (short(hop), len(reqs)))
+    r.site(hop, reqs[0], "request body")
+    pv = _Prov(hop, reqs[0], idx)
+    _compare(r, pv, hop, reqs[0], pv.ev(kwarg(reqs[0], "message_to_serialize")),
+             ref.ev(parse_expr(_HTTP_BODY), {"TW": ("in", tw_p), "RV": ("in", rv_p)}), _BODY_NAMES, "the server", why["tw"], ref)
+    # -- the value classes: asdict() of each yields exactly the keys the handler reads
+    first = None
+    for cname, want in sorted(_WIRE_FIELDS.items()):
+        got = _attrs_fields(idx, cname)
+        if got is None:
+            raise AnchorVanished("value class %s of allmydata.storage.http_client" % cname)
+        ci = [c for c in idx.class_by_name[cname] if c.module.name == "allmydata.storage.http_client"][0]
+        first = first or ci
+        r.require(sorted(got) == sorted(want), ci.qual, "%s:%d" % (ci.module.relpath, ci.node.lineno),
+                  "%s has the fields %s; asdict() names the wire keys after them and the server reads %s" % (cname, got, list(want)))
+    r.site("allmydata.storage.http_client value classes", None)
+    ad = idx.func(_HC + "TestWriteVectors.asdict")
+    r.site(ad, None, "renaming to the wire keys")
+    keys = None                      # wire key -> field
+    dname = None
+    for st in ad.body:
+        if isinstance(st, ast.Expr) and isinstance(st.value, ast.Constant):
+            continue
+        if isinstance(st, ast.Assign) and len(st.targets) == 1 and isinstance(st.targets[0], ast.Name) and keys is None \
+                and isinstance(st.value, ast.Call) and isinstance(st.value.func, ast.Name) and st.value.func.id == "asdict" \
+                and len(st.value.args) == 1 and not st.value.keywords and attr_path(st.value.args[0]) == ad.params[0]:
+            dname, keys = st.targets[0].id, {f: f for f in _WIRE_FIELDS["TestWriteVectors"]}
+            continue
+        if keys is not None and isinstance(st, ast.Assign) and len(st.targets) == 1 and isinstance(st.targets[0], ast.Subscript) \
+                and attr_path(st.targets[0].value) == dname and isinstance(st.targets[0].slice, ast.Constant) \
+                and isinstance(st.value, ast.Call) and call_name(st.value) == dname + ".pop" and len(st.value.args) == 1 \
+                and isinstance(st.value.args[0], ast.Constant):
+            k, f = st.targets[0].slice.value, st.value.args[0].value
+            r.require(f in keys, ad, ad.loc(st), "%s pops the key %r, which is not there" % (short(ad), f))
+            if f in keys:
+                keys[k] = keys.pop(f)
+            continue
+        if keys is not None and isinstance(st, ast.Return) and attr_path(st.value) == dname:
+            break
+        raise AnalysisError("%s: statement not understood: %s" % (short(ad), src(ad, st)))
+    else:
+        raise AnalysisError("%s does not return the dictionary it builds" % short(ad))
+    r.require(keys == _WIRE_RENAMES, ad, ad.loc(), "%s sends a share's vectors under the keys %s; the server reads %s" % (
+        short(ad), keys, _WIRE_RENAMES))
 
 
 # --------------------------------------------------------------- more helpers
